@@ -4,11 +4,12 @@
 # 3. apply the patch to /repo, run ./check PID, undo
 PID=$1; WT=$2; OUT=$3
 cd $WT || exit 9
-git diff > $OUT/patch.diff
+# (git stash is shared between worktrees of one repository: never use it here)
+git checkout -q -- . ; git apply $OUT/patch.diff || { echo "patch.diff does not apply in $WT"; exit 7; }
 PYTHONPATH=$WT timeout 900 /venv/bin/python $OUT/demo.py > $OUT/demo_with.log 2>&1; RW=$?
-git stash -q
+git apply -R $OUT/patch.diff
 PYTHONPATH=$WT timeout 900 /venv/bin/python $OUT/demo.py > $OUT/demo_without.log 2>&1; RWO=$?
-git stash pop -q
+git apply $OUT/patch.diff
 echo "demo: with patch rc=$RW, without rc=$RWO"
 if [ "$4" != "notests" ]; then
   PYTHONPATH=$WT /venv/bin/python -m pytest -q -p no:cacheprovider --timeout=900 -n 6 2>&1 | tail -1 > $OUT/pytest.log
